@@ -24,6 +24,9 @@ gvars == <<vars, hist, finished>>
 
 Ev(a, c, x) == [a |-> a, c |-> c, x |-> x]
 Log(a, c, x) == hist' = Append(hist, Ev(a, c, x))
+\* steps also carry the abstract state of the old process after the step (compared with the real binary's
+\* observable state in the end-to-end replay: admin port, listening socket, process alive)
+LogP(a, c, x) == hist' = Append(hist, [a |-> a, c |-> c, x |-> x, p |-> par'])
 
 GenInit == Init /\ hist = <<>> /\ finished = FALSE
 
@@ -43,9 +46,9 @@ GenNext ==
      \/ ParentRejectFrame /\ Log("reject", serving, "")
      \/ ParentRead /\ Log("read", serving, Head(c2p[serving]))
      \/ ParentEOF /\ Log("peof", serving, "")
-     \/ ParentStep /\ Log("step", serving, inhand)
+     \/ ParentStep /\ LogP("step", serving, inhand)
      \/ ParentReply /\ Log("reply", serving, Reply(inhand))
-     \/ ParentKill /\ Log("kill", serving, "term")
+     \/ ParentKill /\ LogP("kill", serving, "term")
      \/ Exits /\ Quiet /\ (\E c \in Children : ~Ended(c)) /\ ParentExit /\ Log("exit", 0, "")
      \/ \E c \in Children :
           \/ Quiet /\ ChildConnect(c) /\ Log("connect", c, "")
